@@ -46,6 +46,7 @@ type dKind struct {
 	dels      []string
 	valueKind string // ref: kind of Value; maplike: shape of entries; alias: embedded kind
 	extCopy, refEarly, nilGuard, unmExt, assignBack, delegates, hasYAML, hasMarsh, hasUnm, uniform bool
+	nilSafe   bool // ref wrapper: MarshalYAML of the Value type has a pointer receiver and starts with a nil check
 	post      []string
 	unrec     []string
 }
@@ -181,9 +182,16 @@ func classify(pkgs map[string]*dPkg, cur string, e ast.Expr, depth int) (string,
 		}
 		if u, ok := p.named[t.Name]; ok {
 			tc, sh := classify(pkgs, cur, u, depth+1)
-			if _, isMap := u.(*ast.MapType); isMap && sh != ".leaf" {
+			if _, isMap := u.(*ast.MapType); isMap {
+				// a named map type with its own UnmarshalJSON (unmarshalStringMap / unmarshalStringMapP): JSON null
+				// makes an empty non-nil map, and a null entry becomes a pointer to the zero value
 				if _, custom := p.methods[t.Name]["UnmarshalJSON"]; custom {
-					sh = strings.Replace(sh, ".map ", ".pmap ", 1)
+					tc = "nmap"
+					if sh == ".leaf" {
+						sh = "(.pmap .leaf)"
+					} else {
+						sh = strings.Replace(sh, ".map ", ".pmap ", 1)
+					}
 				}
 			}
 			return tc, sh
@@ -212,6 +220,9 @@ func classify(pkgs map[string]*dPkg, cur string, e ast.Expr, depth int) (string,
 		if strings.HasPrefix(sh, ".unknown") {
 			return "unknown", sh
 		}
+		if id, ok := t.Elt.(*ast.Ident); ok && id.Name == "string" {
+			return "slice", "(.list .strLeaf)" // a null element becomes the empty string
+		}
 		if sh == ".leaf" {
 			return "slice", ".leaf"
 		}
@@ -220,6 +231,9 @@ func classify(pkgs map[string]*dPkg, cur string, e ast.Expr, depth int) (string,
 		_, sh := classify(pkgs, cur, t.Value, depth+1)
 		if strings.HasPrefix(sh, ".unknown") {
 			return "unknown", sh
+		}
+		if id, ok := t.Value.(*ast.Ident); ok && id.Name == "string" {
+			return "map", "(.map .strLeaf)" // a null entry becomes the empty string
 		}
 		if sh == ".leaf" {
 			return "map", ".leaf"
@@ -584,6 +598,14 @@ func extractDescriptors(repo string) (string, error) {
 				}
 				k.hasMarsh, k.hasUnm = ms["MarshalYAML"] != nil, ms["UnmarshalJSON"] != nil
 				k.delegates = ms["MarshalJSON"] != nil && p.delegatesToYAML(ms["MarshalJSON"])
+				if se, ok := vt.(*ast.StarExpr); ok {
+					if id, ok := se.X.(*ast.Ident); ok {
+						if vm := p.methods[id.Name]["MarshalYAML"]; vm != nil && len(vm.Body.List) > 0 {
+							_, ptr := vm.Recv.List[0].Type.(*ast.StarExpr)
+							k.nilSafe = ptr && squash(p.text(vm.Body.List[0])) == "if"+recvName(vm)+"==nil{returnnil,nil}"
+						}
+					}
+				}
 				k.uniform = p.bodyIs(ms["MarshalYAML"], refMarshalYAML) && p.bodyIs(ms["UnmarshalJSON"], refUnmarshal, "ORIGIN", origin) &&
 					recvName(ms["MarshalYAML"]) == "x" && recvName(ms["MarshalJSON"]) == "x" && recvName(ms["UnmarshalJSON"]) == "x"
 			case "maplike":
@@ -682,9 +704,9 @@ func extractDescriptors(repo string) (string, error) {
 			sep = ""
 		}
 		fmt.Fprintf(&b, "  { name := %q, template := .%s, fields := [%s],\n    marsh := [%s],\n    dels := %s, valueShape := %s,\n"+
-			"    extCopy := %s, refEarly := %s, unmExt := %s, assignBack := %s, delegates := %s, hasMarsh := %s, hasUnm := %s, uniform := %s,\n    post := %s, unrecognised := %s }%s\n",
+			"    extCopy := %s, refEarly := %s, unmExt := %s, assignBack := %s, delegates := %s, hasMarsh := %s, hasUnm := %s, uniform := %s, valueNilSafe := %s,\n    post := %s, unrecognised := %s }%s\n",
 			k.pkg+"."+k.name, k.template, strings.Join(fs, ", "), strings.Join(mm, ", "), strs(k.dels), vk,
-			lb(k.extCopy), lb(k.refEarly), lb(k.unmExt), lb(k.assignBack), lb(k.delegates), lb(k.hasMarsh), lb(k.hasUnm), lb(k.uniform),
+			lb(k.extCopy), lb(k.refEarly), lb(k.unmExt), lb(k.assignBack), lb(k.delegates), lb(k.hasMarsh), lb(k.hasUnm), lb(k.uniform), lb(k.nilSafe),
 			strs(k.post), strs(k.unrec), sep)
 	}
 	b.WriteString("]\n\nend KinModel.Gen\n")
